@@ -40,7 +40,23 @@ def jobs_for(tier, rng):
             job["cert"] = True
             job["injects"] = [{"v": gen.rand_values(rng, ns, vmax=4, exp=0),
                                "policy": [rng.randrange(na) for _ in range(ns)]} for _ in range(4)]
+            if k % 4 == 1:
+                # a very loose epsilon: the evaluation stops at its first step and hands back the values it was given -
+                # the improvement step must be made all the same
+                job["eps"] = [64, 0]
         jobs.append(job)
+    # a passive supplied starting policy (action 0 pays nothing anywhere, initial values zero): its evaluation stops at
+    # the first step with a measure of exactly 0 and returns the values it started from
+    for k in range(4 if tier == "quick" else 30):
+        m = gen.union(rng, rng.randint(2, 6), PD=rng.choice([1, 2]), na=2, v0max=0, plain=True, chain=False)
+        for s_ in range(m["ns"]):
+            m["rew"][s_][0] = [0] * m["ne"]
+            m["rew"][s_][1] = [abs(r) + 1 for r in m["rew"][s_][1]]
+        m["render"]["has_init_policy"] = True
+        m["pol0"] = [0] * m["ns"]
+        jobs.append({"mdp": m, "kind": "PI", "gamma": rng.choice([[1, 2], [1, 4]]), "eps": [1, 2], "test": rng.choice(["span", "max_diff"]),
+                     "reset": False, "max_eval_iter": rng.choice([1, 5, 50]), "mbs": rng.choice([2, 1024]), "calls": [30],
+                     "cert": True, "tag": f"pi-passive{k}", "min_sweeps": 2})
     # thousands of dense states (judged in full)
     for k, ng in enumerate([1500] if tier == "quick" else [1500, 5000]):
         m = gen.union(rng, ng, PD=2, na=2, ne=2, rmax=3, v0max=2, plain=True, chain=False)
